@@ -23,6 +23,7 @@ import (
 	"sort"
 	"strconv"
 	"strings"
+	"syscall"
 	"time"
 
 	"github.com/elk-language/elk/bitfield"
@@ -990,6 +991,9 @@ type itemResult struct {
 // blockTimeout bounds one batch of calls (normally milliseconds).
 const blockTimeout = 6 * time.Second
 
+// soloBlockTimeout is the additional time a call that blocked gets when it runs alone.
+const soloBlockTimeout = 40 * time.Second
+
 func itemSource(i int, cl call) string {
 	var b strings.Builder
 	fmt.Fprintf(&b, "do\n")
@@ -1136,26 +1140,38 @@ func runItems(calls []call, idx []int, res []itemResult, depth int) {
 		defer th.Aborter.CancelFunc()()
 		o.val, o.errv = th.InterpretTopLevel(c.fn)
 	}()
-	var val, errv value.Value
-	var pan, stack string
+	var o runOut
+	got := false
 	select {
-	case o := <-done:
-		val, errv, pan, stack = o.val, o.errv, o.pan, o.stack
-		// a dispatch failure ("tried to call an invalid method") panics before any native code has run: it leaves
-		// nothing behind; any other panic may have interrupted a native function half-way
-		if pan != "" && !strings.HasPrefix(pan, "tried to call an invalid method") {
-			tainted = true
-		}
+	case o = <-done:
+		got = true
 	case <-time.After(blockTimeout):
 		tainted = true
 		if len(idx) == 1 {
-			res[idx[0]].blocked = true
+			// alone: give a runaway native recursion time to hit the stack limit (a fatal error, attributed to this
+			// case by the engine) before the call is written off as blocked
+			select {
+			case o = <-done:
+				got = true
+			case <-time.After(soloBlockTimeout):
+			}
+		}
+		if !got {
+			if len(idx) == 1 {
+				res[idx[0]].blocked = true
+				return
+			}
+			mid := len(idx) / 2
+			runItems(calls, idx[:mid], res, depth+1)
+			runItems(calls, idx[mid:], res, depth+1)
 			return
 		}
-		mid := len(idx) / 2
-		runItems(calls, idx[:mid], res, depth+1)
-		runItems(calls, idx[mid:], res, depth+1)
-		return
+	}
+	val, errv, pan, stack := o.val, o.errv, o.pan, o.stack
+	// a dispatch failure ("tried to call an invalid method") panics before any native code has run: it leaves
+	// nothing behind; any other panic may have interrupted a native function half-way
+	if pan != "" && !strings.HasPrefix(pan, "tried to call an invalid method") {
+		tainted = true
 	}
 	if pan != "" {
 		if len(idx) == 1 {
@@ -1604,6 +1620,42 @@ func judge(t target, i int, cl call, ir itemResult, debugMode bool) (j judged) {
 	return j
 }
 
+// reexecFrom replaces the worker process by a fresh image of itself that resumes at case index idx (same pid, same
+// journal, so the engine does not notice). Only in worker mode; a replay / solo re-run executes a single case anyway.
+func reexecFrom(idx int64) {
+	args := append([]string(nil), os.Args...)
+	isWorker, hasSkip := false, false
+	for i := 0; i < len(args); i++ {
+		a := strings.TrimLeft(args[i], "-")
+		switch {
+		case a == "worker":
+			isWorker = true
+		case a == "only-idx" || strings.HasPrefix(a, "only-idx="):
+			return
+		case a == "skip" && i+1 < len(args):
+			if cur, err := strconv.ParseInt(args[i+1], 10, 64); err == nil && cur > idx {
+				return // the engine already told us to start later than that
+			}
+			args[i+1] = strconv.FormatInt(idx, 10)
+			hasSkip = true
+		}
+	}
+	if !isWorker {
+		return
+	}
+	if !hasSkip {
+		args = append(args, "--skip", strconv.FormatInt(idx, 10))
+	}
+	exe, err := os.Executable()
+	if err != nil {
+		return
+	}
+	if debugFile != nil {
+		debugFile.Close()
+	}
+	syscall.Exec(exe, args, os.Environ()) // does not return on success
+}
+
 // tainted is set once this process has recovered a Go panic raised inside elk: process-global state (locks held by
 // the panicking native, half-updated tables) may be inconsistent from then on, so every later finding of this
 // process is confirmed by re-running the call in a fresh process before it is reported.
@@ -1690,6 +1742,7 @@ func run(c *engine.Ctx) {
 		onlyRe = regexp.MustCompile(only)
 	}
 	maxPerParam := maxPerParamFor(c.Thorough)
+	caseIdx := int64(-1) // mirrors the engine's case index (one per c.Case call)
 	for _, t := range ts {
 		t := t
 		if onlyRe != nil && !onlyRe.MatchString(t.id) {
@@ -1697,6 +1750,12 @@ func run(c *engine.Ctx) {
 		}
 		if !c.Thorough && onlyRe == nil && !quickClasses.MatchString(t.ns.Name()) {
 			continue
+		}
+		caseIdx++
+		if tainted {
+			// the previous case left this process in a doubtful state (a native panicked half-way, or a call was
+			// abandoned while blocked): continue in a fresh process image, from this case on
+			reexecFrom(caseIdx)
 		}
 		c.Case(t.id, func(r *engine.R) {
 			m := t.m
@@ -1839,6 +1898,6 @@ func main() {
 		},
 		Run:             run,
 		HangIsViolation: false,
-		CaseTimeout:     150 * time.Second,
+		CaseTimeout:     240 * time.Second,
 	})
 }
